@@ -453,6 +453,10 @@ func (t *wal) Clear() error {
 	t.Lock()
 	defer t.Unlock()
 
+	return t.clearWithoutLock()
+}
+
+func (t *wal) clearWithoutLock() error {
 	err := multierr.Combine(
 		t.currentSegment.Close(),
 		t.readOnlySegments.Close(),
@@ -529,8 +533,8 @@ func (t *wal) TruncateLog(lastSafeOffset int64) (int64, error) { //nolint:revive
 			case err != nil:
 				return InvalidOffset, err
 			case segment == nil:
-				// There are no segments left
-				if err := t.Clear(); err != nil {
+				// There are no segments left (the lock is already held)
+				if err := t.clearWithoutLock(); err != nil {
 					return InvalidOffset, err
 				}
 				return t.LastOffset(), nil
